@@ -221,8 +221,12 @@ def build_specs(qp, r, quick):
         def cls_som(path, why, wrong, allwrong):
             if why.startswith("raise:") and (no == 1 or nx == 1 or ny == 1):
                 return "SignedOutMultiplier:one-wire-register-raises"
-            if why in ("value", "dirty-work", "superposition") and wrong and all(signed(w["x"], nx) < 0 or signed(w["y"], ny) < 0 for w in wrong):
-                return "SignedOutMultiplier:negative-operand"
+            if why in ("value", "dirty-work", "superposition") and wrong:
+                sx = [(signed(w["x"], nx), signed(w["y"], ny)) for w in wrong]
+                if all(a * b == 0 and (a < 0) != (b < 0) for a, b in sx):
+                    return "SignedOutMultiplier:negative-zero"          # 0 * negative gives -2^(k-1): the sign bit is set for a zero product
+                if all(a < 0 or b < 0 for a, b in sx):
+                    return "SignedOutMultiplier:negative-operand"       # also covers magnitudes computed with the broken Incrementer fallback
             return None
 
         return Spec("SignedOutMultiplier", lambda: qp.SignedOutMultiplier(xw, yw, ow, work_wires=ww, output_wires_zeroed=zeroed),
